@@ -352,6 +352,7 @@ func rpcRefreshContract(ctx context.Context, t TransportClient, tp TxPool, signe
 
 	s, err := openStream(ctx, t, defaultStreamTimeout)
 	if err != nil {
+		signer.ReleaseInputs([]types.V2Transaction{renewalTxn})
 		return RPCRefreshContractResult{}, fmt.Errorf("failed to dial stream: %w", err)
 	}
 	defer s.Close()
@@ -1246,6 +1247,7 @@ func RPCRenewContract(ctx context.Context, t TransportClient, tp TxPool, signer 
 
 	s, err := openStream(ctx, t, defaultStreamTimeout)
 	if err != nil {
+		signer.ReleaseInputs([]types.V2Transaction{renewalTxn})
 		return RPCRenewContractResult{}, fmt.Errorf("failed to dial stream: %w", err)
 	}
 	defer s.Close()
